@@ -64,6 +64,19 @@ func c16Docs(r *xrand.Rand, n int) []run.Doc {
 	ee := corpus.Small(5000)
 	var out []run.Doc
 	for i := 0; i < n; i++ {
+		if r.Chance(1, 8) {
+			// quoted parameters with escapes, a quoted INCLUDE-free project: whatever the library does to a parameter it
+			// must do to its own copy, the bytes of the project may be shared between parses
+			n := r.Intn(1000)
+			var sb strings.Builder
+			fmt.Fprintf(&sb, "JSIGHT 0.3\nINFO\n  Title \"Pets \\\"API\\\" \\\\v%d\"\n  Version \"1.\\\\%d\"\nSERVER @s\n  BaseUrl \"https://a/\\\\%d\"\n", n, n, n)
+			// long enough for the parses to overlap: a few hundred methods with escaped quoted paths
+			for k := 0; k < 300; k++ {
+				fmt.Fprintf(&sb, "GET \"/pets/\\\"q%d_%d\\\"/\\\\x\"\n  200 any\n", n, k)
+			}
+			out = append(out, run.Single([]byte(sb.String())))
+			continue
+		}
 		if r.Chance(2, 3) {
 			e := ee[r.Intn(len(ee))]
 			d := memDoc(e.Content, e.Dir)
@@ -83,7 +96,9 @@ func c16GenParallel(r *xrand.Rand, idx int, tier string) *fw.Case {
 
 func c16EvalParallel(t *fw.T, c *fw.Case) {
 	solo := make([]string, len(c.Docs))
+	pristine := make([][]byte, len(c.Docs))
 	for i, d := range c.Docs {
+		pristine[i] = append([]byte{}, d.Files[d.Root]...)
 		solo[i] = fingerprint(run.ExecConcurrent(d))
 	}
 	rounds := 4
@@ -107,6 +122,36 @@ func c16EvalParallel(t *fw.T, c *fw.Case) {
 	}
 	close(start)
 	wg.Wait()
+	// then every goroutine parses the very same projects (the same bytes) at the same moment
+	for _, j := range []int{c.Index % len(c.Docs), (c.Index + 5) % len(c.Docs)} {
+		// a pristine copy of the bytes, which no parse has seen yet, shared by all goroutines
+		shared := c.Docs[j]
+		shared.Files = map[string][]byte{}
+		for name, content := range c.Docs[j].Files {
+			shared.Files[name] = append([]byte{}, content...)
+		}
+		if pristine[j] != nil {
+			shared.Files[shared.Root] = append([]byte{}, pristine[j]...)
+		}
+		var wg2 sync.WaitGroup
+		start2 := make(chan struct{})
+		for i := range c.Docs {
+			wg2.Add(1)
+			go func(i int) {
+				defer wg2.Done()
+				<-start2
+				o := run.ExecConcurrent(shared)
+				if f := fingerprint(o); f != solo[j] && bad[i] == "" {
+					bad[i] = fmt.Sprintf("project %d parsed by 16 goroutines at once: %s", j, describe(o))
+					badDoc[i] = j
+				}
+			}(i)
+		}
+		close(start2)
+		wg2.Wait()
+		t.Add("parallel_results_compared", len(c.Docs))
+		t.Count("same_bytes_rounds")
+	}
 	t.Add("parallel_results_compared", len(c.Docs)*rounds)
 	for i, b := range bad {
 		if b != "" {
